@@ -19,13 +19,17 @@ import (
 // memRun drives the real in-memory config store (pilot/pkg/config/memory): Create / Update / Delete /
 // Get / List and event handlers.  Lean: MemDriver.lean.
 type memRun struct {
+	kind config.GroupVersionKind // ServiceEntry, or VirtualService for cases flagged `vs`
 	ctl  *memory.Controller
 	stop chan struct{}
 	subs map[string]*subscriber
 }
 
-func newMemRun() runner {
-	r := &memRun{ctl: memory.NewController(collections.Pilot, true), stop: make(chan struct{}), subs: map[string]*subscriber{}}
+func newMemRun(flags ...string) runner {
+	r := &memRun{kind: gvk.ServiceEntry, ctl: memory.NewController(collections.Pilot, true), stop: make(chan struct{}), subs: map[string]*subscriber{}}
+	if contains(flags, "vs") {
+		r.kind = gvk.VirtualService
+	}
 	go r.ctl.Run(r.stop)
 	return r
 }
@@ -37,6 +41,15 @@ func memNS(ns string) string {
 		return "" // cluster-scoped
 	}
 	return ns
+}
+
+func (r *memRun) cfg(ns, name, val, rv string) config.Config {
+	c := memCfg(ns, name, val, rv)
+	if r.kind == gvk.VirtualService {
+		c.GroupVersionKind = gvk.VirtualService
+		c.Spec = &networking.VirtualService{Hosts: []string{val + ".example.com"}}
+	}
+	return c
 }
 
 func memCfg(ns, name, val, rv string) config.Config {
@@ -81,7 +94,7 @@ func (r *memRun) step(toks []string) (string, string) {
 	line := strings.Join(toks, " ")
 	switch {
 	case toks[0] == "m.create" && len(toks) == 5:
-		rv, err := r.ctl.Create(memCfg(toks[1], toks[2], toks[3], toks[4]))
+		rv, err := r.ctl.Create(r.cfg(toks[1], toks[2], toks[3], toks[4]))
 		if err != nil {
 			return memErr(err), line
 		}
@@ -91,7 +104,7 @@ func (r *memRun) step(toks []string) (string, string) {
 		if rv == "-" {
 			rv = ""
 		}
-		c := memCfg(toks[1], toks[2], toks[3], rv)
+		c := r.cfg(toks[1], toks[2], toks[3], rv)
 		c.Annotations = map[string]string{memory.ResourceVersion: toks[5]}
 		var nrv string
 		var err error
@@ -105,9 +118,9 @@ func (r *memRun) step(toks []string) (string, string) {
 		}
 		return "ok:" + nrv, line
 	case toks[0] == "m.delete" && len(toks) == 3:
-		return memErr(r.ctl.Delete(gvk.ServiceEntry, toks[2], memNS(toks[1]), nil)), line
+		return memErr(r.ctl.Delete(r.kind, toks[2], memNS(toks[1]), nil)), line
 	case toks[0] == "m.get" && len(toks) == 3:
-		c := r.ctl.Get(gvk.ServiceEntry, toks[2], memNS(toks[1]))
+		c := r.ctl.Get(r.kind, toks[2], memNS(toks[1]))
 		if c == nil {
 			return "m.get none", line
 		}
@@ -125,7 +138,7 @@ func (r *memRun) step(toks []string) (string, string) {
 			ns = model.NamespaceAll
 		}
 		var es []string
-		for _, c := range r.ctl.List(gvk.ServiceEntry, ns) {
+		for _, c := range r.ctl.List(r.kind, ns) {
 			es = append(es, memKey(c)+"~"+memTok(c))
 		}
 		sort.Strings(es)
@@ -138,7 +151,7 @@ func (r *memRun) step(toks []string) (string, string) {
 		synctest.Wait()
 		s := &subscriber{}
 		r.subs[toks[1]] = s
-		r.ctl.RegisterEventHandler(gvk.ServiceEntry, func(old, cur config.Config, ev model.Event) {
+		r.ctl.RegisterEventHandler(r.kind, func(old, cur config.Config, ev model.Event) {
 			switch ev {
 			case model.EventAdd:
 				s.add("A~" + memKey(cur) + "~" + memTok(cur))
@@ -167,7 +180,11 @@ func (r *memRun) step(toks []string) (string, string) {
 }
 
 func genMemCase(r *wire.Rng, n int, w *wire.Out) {
-	w.Line("case", fmt.Sprint(n), "mem")
+	if r.Chance(40, 100) {
+		w.Line("case", fmt.Sprint(n), "mem", "vs") // a second kind: VirtualService
+	} else {
+		w.Line("case", fmt.Sprint(n), "mem")
+	}
 	type obj struct{ rv string }
 	cur := map[string]obj{}
 	var subs []string
